@@ -28,7 +28,15 @@
 static const uint64_t STOP = ~0ULL;
 static uint64_t item(int p, uint64_t seq) { return ((uint64_t)p << 40) | seq; }
 static long now_us() { return std::chrono::duration_cast<std::chrono::microseconds>(std::chrono::steady_clock::now().time_since_epoch()).count(); }
-static void on_alarm(int) { printf("result hung\n"); fflush(stdout); _exit(0); }
+static std::atomic<long> g_progress{0}; static long alarm_seen = -1; static int alarm_ticks = 0;
+// every 10 s: no element consumed since the last tick = hung; still progressing after 300 s = the machine is too loaded (inconclusive)
+static void on_alarm(int) {
+    long p = g_progress.load();
+    if (p == alarm_seen) { printf("result hung\n"); fflush(stdout); _exit(0); }
+    alarm_seen = p;
+    if (++alarm_ticks >= 30) { printf("result slow\n"); fflush(stdout); _exit(0); }
+    alarm(10);
+}
 static void on_segv(int s) { printf("result crashed signal=%d\n", s); fflush(stdout); _exit(0); }
 
 template <class Q> static void run_ring(Q* q, size_t cap, int P, int Cn, uint64_t M, bool blocking) {
@@ -41,7 +49,7 @@ template <class Q> static void run_ring(Q* q, size_t cap, int P, int Cn, uint64_
             uint64_t x;
             if (blocking) { x = q->template recv<ThreadPause>(); if (x == STOP) break; }
             else { if (!q->pop(x)) { if (consumed.load() >= total) break; std::this_thread::yield(); continue; } }
-            got[c].push_back(x); consumed++;
+            got[c].push_back(x); consumed++; g_progress++;
             size_t a = q->read_available(); size_t m = maxavail.load(); while (a > m && a < (1ULL << 60) && !maxavail.compare_exchange_weak(m, a)) {}
         }
     });
@@ -78,8 +86,8 @@ template <class Q> static void run_chan(size_t creq, int P, int Cn, uint64_t M, 
             long st = ((volatile long*)sent_at[p].data())[s];
             if (st) { long lat = t - st; long m = maxlat.load(); while (lat > m && !maxlat.compare_exchange_weak(m, lat)) {} }
             got[c].push_back(x);
-            if (rdv) { long T = now_ns() + 3000; target.store(T); consumed++; while (now_ns() < T) {} }
-            else consumed++;
+            if (rdv) { long T = now_ns() + 3000; target.store(T); consumed++; g_progress++; while (now_ns() < T) {} }
+            else { consumed++; g_progress++; }
         }
         photon::fini();
     });
@@ -107,7 +115,7 @@ template <class Q> static void run_chan(size_t creq, int P, int Cn, uint64_t M, 
 
 static size_t cap_of(size_t c) { size_t k = 2; while (k < c) k <<= 1; return k; }
 static int run_program(const std::vector<std::string>& lines) {
-    signal(SIGALRM, on_alarm); alarm(30); signal(SIGSEGV, on_segv); signal(SIGABRT, on_segv);
+    signal(SIGALRM, on_alarm); alarm(10); signal(SIGSEGV, on_segv); signal(SIGABRT, on_segv);
     set_log_output(log_output_null);
     for (auto& l : lines) {
         std::istringstream is(l); std::string w, kind; size_t c; int P, Cn; uint64_t M, last; is >> w >> kind >> c >> P >> Cn >> M >> last;
